@@ -37,7 +37,7 @@ ASSUMPTIONS = [
     "'the end marker' = EI followed by a byte for which bytes.isspace() is true; inline data is written as ID<space>data<LF>EI<LF> and does not end in CR",
     "export formats limited to those that do not need Pillow (DCT pass-through, 1-bit / 8-bit gray / 8-bit RGB bitmaps)",
 ]
-PROBES = ["two inline images with the same data bytes", "dct data continues behind the EOI marker", "CR after ID and data starting with LF", "dct behind further filters", "same XObject drawn twice", "inline image ending at the ASCII85 marker", "inline image", "xobject image", "gray8", "rgb8", "1bit", "dct", "filter chain", "unfiltered", "row padding needed", "boundary placed in inline markers", "contents split after image", "inline data contains EI", "preexisting export name", "two images same name", "bmp exported", "jpg exported"]
+PROBES = ["ASCII85 inline data contains EI + white space", "two inline images with the same data bytes", "dct data continues behind the EOI marker", "CR after ID and data starting with LF", "dct behind further filters", "same XObject drawn twice", "inline image ending at the ASCII85 marker", "inline image", "xobject image", "gray8", "rgb8", "1bit", "dct", "filter chain", "unfiltered", "row padding needed", "boundary placed in inline markers", "contents split after image", "inline data contains EI", "preexisting export name", "two images same name", "bmp exported", "jpg exported"]
 TIERS = {
     "quick": {"batches": 16, "runs": 450, "budget_s": 50},
     "thorough": {"batches": 128, "runs": 500, "budget_s": 1200},
@@ -109,6 +109,10 @@ def gen_image(t, ctx, idx):
         data = samples
         for f in reversed(chain):
             data = encoders.ENCODERS[f](data, t)
+        if inline and chain and chain[0] == "ASCII85Decode" and b"EI" in data[:-2] and t.coin(60, 100, "a85.ei"):
+            # white space may stand anywhere in ASCII85 text - also behind the letters E I; the data still ends at ~>
+            data = data[:-2].replace(b"EI", b"EI\n") + data[-2:]
+            ctx.probe("ASCII85 inline data contains EI + white space")
         ctx.probe("filter chain" if chain else "unfiltered")
     if bits in (1, 8) and kind != "dct" and (rowlen % 4):
         ctx.probe("row padding needed")
